@@ -4,7 +4,7 @@ PROPS = {}
 
 PROPS['C07'] = dict(
   level='proof',
-  verus=[dict(unit='chanq', min_functions=10), dict(unit='ops', min_functions=2), dict(unit='splitcopy', min_functions=1), dict(unit='launchc', min_functions=1), dict(unit='parserret', min_functions=1), dict(unit='literalc', min_functions=1), dict(unit='signalvm', min_functions=1), dict(unit='basicvm', min_functions=1), dict(unit='fiberstate', min_functions=4)],
+  verus=[dict(unit='chanq', min_functions=10), dict(unit='ops', min_functions=2), dict(unit='splitcopy', min_functions=1), dict(unit='launchc', min_functions=1), dict(unit='parserret', min_functions=1), dict(unit='literalc', min_functions=1), dict(unit='signalvm', min_functions=1), dict(unit='basicvm', min_functions=1), dict(unit='fiberstate', min_functions=4), dict(unit='createfiber', min_functions=1)],
   kani=[],
   not_decided=['resumption of a blocked synchronous sender is the scheduler\'s (C08), not decided here'],
 )
@@ -100,7 +100,7 @@ _GC_C05 = ['proofs::o05_4_marks_cleared', 'proofs::o05_4_temp_root_survives', 'p
 _GC_C09 = ['proofs::o09_intern_twice', 'proofs::o09_intern_across_collection']
 PROPS['C20'] = dict(
   level='proof',
-  verus=[dict(unit='gcglue', min_functions=7), dict(unit='ncall', min_functions=2)],
+  verus=[dict(unit='gcglue', min_functions=7), dict(unit='ncall', min_functions=2), dict(unit='createfiber', min_functions=1)],
   kani=[dict(crate='heap', harnesses=_HEAP_COMPLETE, kind='complete', assumption_ids=['A-kani']),
         dict(crate='heap', harnesses=_HEAP_BOUNDED, kind='bounded', bound='string <= 3 bytes, tuple <= 3 elements, list/vector len <= 2 cap <= 4, array <= 3, unwind 8', assumption_ids=['A-kani', 'A-bound']),
         dict(crate='gc', harnesses=_GC_BOUNDED, kind='bounded', bound='one LyBox, one or two collections, unwind 4', timeout=2400, jobs=4,
